@@ -33,18 +33,19 @@ pub fn alphabet() -> Vec<Ev> {
 
 pub fn run(ctx: &Ctx) -> ! {
     let scratch = ctx.scratch();
+    let closing_rounds = ctx.tier.pick(2, 3);
     let mut rep = Report::new(
         "model_checking",
         "explicit-state exploration by replay of the real aggregator (state machine, certifier, HTTP route, SQLite): \
          every history is replayed on a fresh node and the invariants are evaluated on the database after every event; \
          a history is non-trivial when at least one certificate was sealed; distinct = distinct canonical states",
     );
-    let closing_rounds = ctx.tier.pick(2, 3);
     let run = |h: &[Ev]| replay(&scratch, h, 3, closing_rounds);
     if let Some(path) = &ctx.replay {
         let v = mc_core::load_replay(path);
         let h: Vec<Ev> = serde_json::from_value(v["history"].clone()).expect("history in replay file");
-        let r = run(&h);
+        let kind: crate::world::Kind = serde_json::from_value(v["kind"].clone()).unwrap_or(crate::world::Kind::MsdCdb);
+        let r = crate::sys::replay_kind(&scratch, &h, 3, closing_rounds, kind);
         eprintln!("replayed {} events: outcome {}", h.len(), r.outcome);
         rep.eval();
         for v in r.violations {
@@ -102,6 +103,24 @@ pub fn run(ctx: &Ctx) -> ! {
         let edits2 = |h: &[Ev]| standard_edits(h, &dev2, 6);
         let st = ex.ball(&core, &edits2, 2, &mut rep);
         rep.extra("ball_core_two_deviations", json!({"nominal_len": core.len(), "deviation_alphabet": dev2.len(), "bound_completed": st.depth_completed, "histories": st.transitions, "states": st.states}));
+    }
+
+    // (d) the Cardano stake distribution world: the entity whose beacon epoch differs from the
+    // epoch in which it is signed; nominal schedule up to its first round, 1-deviation ball with
+    // expiry events
+    {
+        use crate::world::Kind;
+        let run_csd = |h: &[Ev]| crate::sys::replay_kind(&scratch, h, 3, closing_rounds, Kind::MsdCsd);
+        let ex_csd = Explorer { threads: ctx.threads(), budget: None, run: &run_csd };
+        let mut nom_csd: Vec<Ev> = vec![Ev::Tick, Ev::RegisterAll];
+        for _ in 0..2 {
+            nom_csd.extend([Ev::Epoch(1), Ev::Tick, Ev::Tick, Ev::Tick, Ev::RegisterAll, Ev::SigAll(Ty::Msd), Ev::Tick, Ev::Quiesce]);
+        }
+        nom_csd.extend([Ev::Tick, Ev::Tick, Ev::SigAll(Ty::Csd), Ev::Tick, Ev::Quiesce]);
+        let dev_csd: Vec<Ev> = vec![Ev::Expire(Ty::Csd), Ev::Expire(Ty::Msd), Ev::Tick, Ev::SigAll(Ty::Csd), Ev::SigAll(Ty::Msd), Ev::Restart, Ev::Epoch(1)];
+        let edits_csd = |h: &[Ev]| standard_edits(h, &dev_csd, 10);
+        let st = ex_csd.ball(&nom_csd, &edits_csd, 1, &mut rep);
+        rep.extra("ball_cardano_stake_distribution_world", json!({"nominal_len": nom_csd.len(), "deviation_alphabet": dev_csd.len(), "bound_completed": st.depth_completed, "histories": st.transitions, "states": st.states}));
     }
 
     // (c) operation interleavings at the hook points: while one operation is parked at a point,
